@@ -117,7 +117,8 @@ def run(chk, ctx):
             elif kind == 'array':
                 rd = None
                 for lp in D.interp.loops:
-                    if lp['func'] is d and isinstance(lp['test'], Sym) \
+                    if (lp['func'] is d or d.short in lp.get('chain', ())) \
+                            and isinstance(lp['test'], Sym) \
                             and lp['test'].op == 'lt':
                         rds = pairs.find_reads(lp['test'].args[1], D.B)
                         if len(rds) == 1:
@@ -129,6 +130,11 @@ def run(chk, ctx):
                     T.sub(endt, T.add(rd.term, ref['prefix'])) == 0
                 fact = 'elements read until the cursor reaches %s' % (
                     T.show(endt)[:60] if rd is not None else '?')
+                if rd is None:
+                    chk.undecide('C05.T', cons, 'no element loop with a '
+                                 'cursor < end test found in %s or the '
+                                 'helpers it runs' % d.short)
+                    continue
             elif kind in ('longstr', 'bytes', 'table'):
                 res = prefixed_ok(dp, ref['prefix'])
                 okk, fact = res[0], res[1]
